@@ -33,7 +33,7 @@ From Coq Require Import List ZArith NArith Bool.
 Import ListNotations.
 From LC Require Import Base BaseFacts Tree Fp Api ScanAction FlexEngine Tokens Lexer Reader Regex RegexFacts Bisim
   ScannerSpec ScannerCert ClassCheck ClassCert LiteralFacts RoundFacts LexRound LexWrite ParseWrite WriteStable RoundExample Parser Writer WriterFacts Run
-  FloatDec FloatStable.
+  FloatDec FloatStable FloatStableG.
 From LC.gen Require Import Consts ScannerTables.
 Local Open Scope Z_scope.
 
@@ -296,6 +296,55 @@ Theorem C01_cut_is_unstable :
   let b := 14715482615620799058 in
   length (fmt_f 6 b) = 68%nat /\ b64_is_finite b = true /\ ~ rerender b 6.
 Proof. exact cut_is_unstable. Qed.
+
+
+(* ---- (10) under scientific notation (%g) the stability hypothesis is a THEOREM for normal doubles and precision <= 15 ----
+   For every finite double that is zero or normal (not a denormal: finding F1c otherwise), every precision up to 15
+   (0 counts as 1, a negative one as 6), when the %g rendering is read back as a finite number (it does not round above
+   DBL_MAX: finding F1b otherwise): render - strtod - render is the identity.  Proof (FloatStableG.v): a canonical form of
+   fmt_g (which decimal it denotes, in which style), strtod of that text is the nearest double, and the grid argument across
+   a decade boundary (the delicate case r = 10^k, where the grid below is ten times finer: 10^15 < 2^52 makes ten to the
+   P ulps fit).  C01_sci_hypotheses_needed evaluates that each hypothesis is necessary - the denormal 21 at precision 2,
+   DBL_MAX at precision 15, and precision 16 on the double just above 10^23: the bound 15 is sharp. *)
+Theorem C01_float_stable_sci : forall b prec,
+  b64_is_finite b = true -> normal_or_zero b -> prec <= 15 ->
+  let t := format_double b prec true 64 in
+  b64_is_finite (strtod_bits t) = true ->
+  format_double (strtod_bits t) prec true 64 = t.
+Proof. exact sci_notation_stable. Qed.
+Print Assumptions C01_float_stable_sci.
+
+Theorem C01_stable_sci : forall c, get_option c OPT_SCI = true -> c_prec c <= 15 ->
+  forall s, sci_ok c s -> stable fmt_double atof c s.
+Proof. exact stable_sci. Qed.
+Print Assumptions C01_stable_sci.
+
+(* the property, both clauses, under scientific notation with no stability hypothesis: floats zero or normal, read back
+   finite, precision <= 15 *)
+Theorem C01_roundtrip_sci : forall FS c c2 kids f h l fi,
+  c_root c = Setting None PGroup kids f h l fi -> kids <> [] ->
+  get_option c OPT_SCI = true -> c_prec c <= 15 ->
+  writable fmt_double atof c (c_root c) -> pstruct (c_root c) -> sci_ok c (c_root c) ->
+  nest_of (flat_map (piece_tok fmt_double atof c) (pieces c (c_root c) 0) ++ [TkEOF]) 0 0 <= NEST_LIMIT ->
+  same_out c c2 ->
+  let r := config_read atof FS c2 None (config_write fmt_double c) in
+  rd_out_ r = RdOk /\
+  obs (c_root (rd_cfg r)) = ON None PGroup 0 (map (fun m => nobs fmt_double atof c (s_name m) m) kids) /\
+  config_write fmt_double (rd_cfg r) = config_write fmt_double c.
+Proof.
+  intros FS c c2 kids f h l fi Hroot Hk Hsci Hp Hw Hs Hok Hn Hso.
+  exact (C01_roundtrip fmt_double atof FS c c2 kids f h l fi Hroot Hk Hw Hs (stable_sci c Hsci Hp _ Hok) Hn Hso).
+Qed.
+Print Assumptions C01_roundtrip_sci.
+
+(* each hypothesis is needed (evaluated): a denormal; a rendering above DBL_MAX; precision 16 *)
+Theorem C01_sci_hypotheses_needed :
+  (b64_is_finite 21 = true /\ b64_is_finite (strtod_bits (format_double 21 2 true 64)) = true /\ ~ rerender_g 21 2) /\
+  (b64_is_finite 9218868437227405311 = true /\ normal_or_zero 9218868437227405311 /\
+   b64_is_finite (strtod_bits (format_double 9218868437227405311 15 true 64)) = false /\ ~ rerender_g 9218868437227405311 15) /\
+  (b64_is_finite 4950912855330343671 = true /\ normal_or_zero 4950912855330343671 /\
+   b64_is_finite (strtod_bits (format_double 4950912855330343671 16 true 64)) = true /\ ~ rerender_g 4950912855330343671 16).
+Proof. exact sci_hypotheses_needed. Qed.
 
 
 (* ---- the hypotheses are satisfiable: a configuration with every scalar type, an escaped string, a NULL string,
